@@ -71,85 +71,57 @@ pub(crate) fn mk_suspended_coroutine() -> (CoroutineImpl, Coroutine, Arc<Join>) 
 // ------------------------------------------------------------------------------------------------
 // ghost event trace
 // ------------------------------------------------------------------------------------------------
-pub(crate) const TRACE_CAP: usize = 24;
-pub(crate) static mut TRACE: [u8; TRACE_CAP] = [0; TRACE_CAP];
-pub(crate) static mut TRACE_LEN: usize = 0;
-pub(crate) static mut TRACE_OVERFLOW: bool = false;
+// Loop-free: per-kind counters and first/last positions (a loop over a trace buffer would force a large
+// unwinding bound on every loop of the code under test).
+pub(crate) const KINDS: usize = 16;
+pub(crate) const NONE: usize = usize::MAX;
+pub(crate) static mut EV_COUNT: [usize; KINDS] = [0; KINDS];
+pub(crate) static mut EV_FIRST: [usize; KINDS] = [NONE; KINDS];
+pub(crate) static mut EV_LAST: [usize; KINDS] = [NONE; KINDS];
+pub(crate) static mut EV_CLOCK: usize = 0;
 
 pub(crate) fn ev(kind: u8) {
     unsafe {
-        if TRACE_LEN < TRACE_CAP {
-            TRACE[TRACE_LEN] = kind;
-            TRACE_LEN += 1;
-        } else {
-            TRACE_OVERFLOW = true;
+        let k = kind as usize;
+        EV_COUNT[k] += 1;
+        if EV_FIRST[k] == NONE {
+            EV_FIRST[k] = EV_CLOCK;
         }
+        EV_LAST[k] = EV_CLOCK;
+        EV_CLOCK += 1;
     }
 }
 
 pub(crate) fn trace_reset() {
     unsafe {
-        TRACE_LEN = 0;
-        TRACE_OVERFLOW = false;
+        EV_COUNT = [0; KINDS];
+        EV_FIRST = [NONE; KINDS];
+        EV_LAST = [NONE; KINDS];
+        EV_CLOCK = 0;
     }
 }
 
 pub(crate) fn count(kind: u8) -> usize {
-    let mut n = 0;
-    let mut i = 0;
-    while i < TRACE_CAP {
-        unsafe {
-            if i < TRACE_LEN && TRACE[i] == kind {
-                n += 1;
-            }
-        }
-        i += 1;
-    }
-    n
+    unsafe { EV_COUNT[kind as usize] }
 }
 
-/// index of the first event of this kind, TRACE_CAP if none
+/// position of the first event of this kind, NONE if there is none
 pub(crate) fn first(kind: u8) -> usize {
-    let mut i = 0;
-    while i < TRACE_CAP {
-        unsafe {
-            if i < TRACE_LEN && TRACE[i] == kind {
-                return i;
-            }
-        }
-        i += 1;
-    }
-    TRACE_CAP
+    unsafe { EV_FIRST[kind as usize] }
 }
 
-/// index of the last event of this kind, TRACE_CAP if none
+/// position of the last event of this kind, NONE if there is none
 pub(crate) fn last(kind: u8) -> usize {
-    let mut r = TRACE_CAP;
-    let mut i = 0;
-    while i < TRACE_CAP {
-        unsafe {
-            if i < TRACE_LEN && TRACE[i] == kind {
-                r = i;
-            }
-        }
-        i += 1;
-    }
-    r
+    unsafe { EV_LAST[kind as usize] }
 }
 
 pub(crate) fn happened(kind: u8) -> bool {
-    first(kind) != TRACE_CAP
+    count(kind) > 0
 }
 
 /// every `a` precedes every `b` (vacuously true if either is absent)
 pub(crate) fn all_before(a: u8, b: u8) -> bool {
-    let la = last(a);
-    let fb = first(b);
-    la == TRACE_CAP || fb == TRACE_CAP || la < fb
-}
-
-pub(crate) fn trace_ok() -> bool {
-    unsafe { !TRACE_OVERFLOW }
+    !happened(a) || !happened(b) || last(a) < first(b)
 }
 
 // event kinds shared by the stubs below (harness files define their own from 100 upwards)
@@ -377,3 +349,36 @@ pub(crate) fn poison_error_new_stub<T>(data: T) -> std::sync::PoisonError<T> {
     kani::assume(false);
     loop {}
 }
+
+/// Dropping the (empty) waiter queues of a Mutex / Condvar runs the real queue destructors; the mpsc one
+/// walks packed pointers, which costs CBMC millions of variables for nothing. Stubbed where noted.
+pub(crate) fn mq_drop_noop<T>(_q: &mut may_queue::mpsc::Queue<T>) {}
+pub(crate) fn seg_drop_noop<T>(_q: &mut crossbeam::queue::SegQueue<T>) {}
+
+/// does this EventSubscriber point at `r`? (the harness then calls `r.subscribe` with static dispatch: a
+/// `dyn EventSource` call makes CBMC consider every function with a compatible signature as a target)
+pub(crate) fn es_points_to<T>(es: &EventSubscriber, r: *const T) -> bool {
+    es.resource as *const () == r as *const ()
+}
+
+/// `io::Error::other(msg)` builds a heap `Custom` error holding a `Box<dyn Error>`; dropping it is a virtual call
+/// with thousands of candidate targets for CBMC. The code under test only looks at `kind()`. These two stubs
+/// stand at the points where a result is handed to a coroutine (`set_co_para` in cancel()/timer, `co_set_para` in
+/// `yield_with`): they keep the kind, hand over a payload-free error of that kind and leak the original.
+pub(crate) fn set_co_para_kind_only(co: &mut CoroutineImpl, v: EventResult) {
+    let k = v.kind();
+    std::mem::forget(v);
+    co.set_para(std::io::Error::from(k));
+}
+
+pub(crate) fn co_set_para_kind_only<A: std::any::Any>(para: A) {
+    assert!(std::mem::size_of::<A>() == std::mem::size_of::<EventResult>());
+    let e: EventResult = unsafe { std::mem::transmute_copy(&para) };
+    std::mem::forget(para);
+    let k = e.kind();
+    std::mem::forget(e);
+    set_current_para(Some(std::io::Error::from(k)));
+}
+
+/// Last resort against the same problem: never run the destructor of an `io::Error` (a `Custom` payload is leaked).
+pub(crate) fn io_error_drop_noop(_e: &mut std::io::Error) {}
